@@ -28,14 +28,69 @@ type delivery struct {
 	sum uint64
 }
 
+// writerError is the failure of one participant's own client connection (broken pipe). Every
+// participant has its own value, so the oracle can tell whose disconnect an error is.
+type writerError struct{ pid int }
+
+func (e *writerError) Error() string {
+	return fmt.Sprintf("write tcp 10.0.0.%d:443: write: broken pipe", e.pid)
+}
+
+func writerErrOf(err error) *writerError {
+	var we *writerError
+	if errors.As(err, &we) {
+		return we
+	}
+	return nil
+}
+
+// writer fault modes of a participant's client writer
+const (
+	wfNone       = 0
+	wfFirstWrite = 1 // the first Write fails, nothing is written
+	wfShortWrite = 2 // the first Write writes half of the bytes and fails
+	wfLater      = 3 // the second and later Writes and Flush fail (the first Write is healthy)
+)
+
+var wfNames = map[int]string{wfNone: "", wfFirstWrite: "first-write", wfShortWrite: "short-write", wfLater: "later-write-or-flush"}
+
 type recWriter struct {
 	buf        bytes.Buffer
 	deliveries []delivery
+	fault      int
+	err        error
+	writes     int
+	flushes    int
+	faults     int
 }
 
 func (w *recWriter) Write(p []byte) (int, error) {
+	w.writes++
 	w.deliveries = append(w.deliveries, delivery{ref: p, sum: xxhash.Sum64(p)})
+	switch {
+	case w.fault == wfFirstWrite && w.writes == 1:
+		w.faults++
+		return 0, w.err
+	case w.fault == wfShortWrite && w.writes == 1:
+		w.faults++
+		n, _ := w.buf.Write(p[:len(p)/2])
+		return n, w.err
+	case w.fault == wfLater && w.writes > 1:
+		w.faults++
+		return 0, w.err
+	}
 	return w.buf.Write(p)
+}
+
+// Flush exists for writers that are flushed by their caller; ArenaResolveGraphQLResponse takes a
+// plain io.Writer, the call count is evidence of whether this point exists on that path at all.
+func (w *recWriter) Flush() error {
+	w.flushes++
+	if w.fault == wfLater {
+		w.faults++
+		return w.err
+	}
+	return nil
 }
 
 type participant struct {
@@ -48,6 +103,9 @@ type participant struct {
 	cancelIssued atomic.Bool
 	started      bool
 	done         chan struct{}
+	// wfault: how this participant's own client writer fails (wfNone: healthy); werr: its error
+	wfault int
+	werr   *writerError
 
 	// written by the participant's goroutine before done is closed
 	out            []byte
@@ -59,6 +117,9 @@ type participant struct {
 	panicMsg       string
 	panicStack     string
 	gotShared      []string
+	wWrites        int
+	wFlushes       int
+	wFaults        int
 }
 
 type soloOutcome struct {
@@ -168,7 +229,7 @@ func (sc *scenario) cancelVariants(spec reqSpec) [][]byte {
 func (sc *scenario) add(name string, spec reqSpec) *participant {
 	base := context.WithValue(context.Background(), pidKey{}, len(sc.parts))
 	ctx, cancel := context.WithCancel(base)
-	p := &participant{id: len(sc.parts), name: name, spec: spec, ctx: ctx, cancel: cancel, done: make(chan struct{})}
+	p := &participant{id: len(sc.parts), name: name, spec: spec, ctx: ctx, cancel: cancel, done: make(chan struct{}), werr: &writerError{pid: len(sc.parts)}}
 	sc.parts = append(sc.parts, p)
 	// the reference outcome, computed before the participant exists for the system under test
 	o := sc.soloRun(spec, nil)
@@ -191,8 +252,9 @@ func (sc *scenario) start(ps ...*participant) {
 
 func (sc *scenario) runParticipant(p *participant, barrier <-chan struct{}) {
 	defer close(p.done)
-	w := &recWriter{}
+	w := &recWriter{fault: p.wfault, err: p.werr}
 	defer func() {
+		p.wWrites, p.wFlushes, p.wFaults = w.writes, w.flushes, w.faults
 		if r := recover(); r != nil {
 			// a panic on a goroutine the harness owns: keep it (with the scenario) instead of
 			// losing the process
@@ -328,7 +390,7 @@ func (sc *scenario) finish() {
 	sc.w.dsGate.setOpen(true)
 	sc.w.limGate.setOpen(true)
 	// bounded progress: everything that could block a participant is open now
-	deadline := time.After(25 * time.Second)
+	deadline := time.After(15 * time.Second)
 	for _, p := range sc.parts {
 		if !p.started {
 			continue
@@ -511,6 +573,10 @@ func (sc *scenario) judge() {
 		if p.panicMsg != "" {
 			d["panic"] = p.panicMsg
 		}
+		if p.wfault != wfNone {
+			d["own_writer_fault"] = wfNames[p.wfault]
+			d["own_writer_faults_injected"] = p.wFaults
+		}
 		return d
 	}
 	all := func() []map[string]any {
@@ -576,7 +642,29 @@ func (sc *scenario) judge() {
 		solo := sc.soloRun(p.spec, nil)
 		ownCancelled := p.ctxErrAtReturn != nil
 		ok := false // outcome equals the solo outcome
+		res.Count("writer_writes", int64(p.wWrites))
+		res.Count("writer_flushes", int64(p.wFlushes))
+		res.Count("writer_faults_injected", int64(p.wFaults))
+		if p.wfault != wfNone {
+			res.Count("participants_with_writer_fault."+wfNames[p.wfault], 1)
+		}
 		switch {
+		case p.err != nil && writerErrOf(p.err) != nil:
+			// a client connection failure: only the participant whose connection it is may see it
+			if we := writerErrOf(p.err); we == p.werr && p.wFaults > 0 {
+				res.Count("outcome.own_writer_error", 1)
+			} else {
+				role := "follower"
+				if !p.dedup && own[p.id] != nil {
+					role = "leader"
+				}
+				res.Count("outcome.foreign_writer_error", 1)
+				sc.violate("foreign-writer-error", fmt.Sprintf("participant %s (own writer healthy or not yet used, own context live: %v) returned the write error of participant %d's client connection: %v", p.name, !ownCancelled, we.pid, p.err),
+					map[string]string{"layer": "inbound", "role": role}, witness(p, map[string]any{"writer_error_belongs_to": sc.parts[we.pid%len(sc.parts)].name}))
+			}
+		case p.wFaults > 0 && p.err == nil:
+			// its own writer failed and the resolver did not report it: nothing the statement speaks about
+			res.Count("outcome.own_writer_fault_not_reported", 1)
 		case p.err != nil && errors.Is(p.err, errLimiterDown):
 			if solo.err != nil && errors.Is(solo.err, errLimiterDown) {
 				ok = true
